@@ -185,6 +185,6 @@ def get_shape(tau, D, k):
         raise ValueError("Incompatible D and k dimensions")
 
     # shape is atleast (1,)
-    shape = common.broadcast_shapes(tau_shape, D_shape[:-2], k_shape[:-1], [1])
+    shape = common.broadcast_shapes(tau_shape, D_shape[:-2], k_shape[:-1], [1], append=True)
     kdim = k_shape[-1] if k_shape else 1
     return shape, kdim
